@@ -27,13 +27,13 @@ def _sel(obs, name, grid_filter=None, quick=None, rename=None):
 def obligations(tier, seed):
     p = packet_obs()
     P = lambda k, vals, key="PKTSEL": setattr(p[k], "quick_grid", [g for g in p[k].grid if g.get(key) in vals])
-    P("mot", (1, 9, 14, 20, 21, 24)); P("pop", (1, 4, 26)); P("x27", (0, 4, 6), "DESSEL"); P("ait", (1, 23)); P("lop_parity", (1, 25), "ROWSEL")
+    P("mot", (1, 9, 14, 20, 21, 24)); P("pop", (1, 4)); P("x27", (0, 6), "DESSEL"); P("ait", (1, 23)); P("lop_parity", (1, 25), "ROWSEL")
     P("mpt", (1, 10, 20, 21)); P("mpt_ex", (1, 23, 24))
     p["rows"].quick_grid = [dict(MAGN=1, PKTN=k) for k in (25, 29, 30, 31)]
     # no verdict inside the quick budget on this machine (measured: 7-11 GB / > 600 s): thorough only, with a larger memory cap
     for k in ("btt", "mip", "drcs", "addr_error", "x2829"):
         p[k].tier = "thorough"; p[k].mem_gb = max(p[k].mem_gb, 14); p[k].timeout = max(p[k].timeout, 1500)
-    p["rows"].mem_gb = 12
+    p["rows"].mem_gb = 12; p["pop"].mem_gb = 12; p["x27"].timeout = 2400
     obs = [p[k] for k in ("rows", "header", "header_badpage", "header_timefill", "addr_error", "mot", "pop", "x27", "ait", "btt", "mpt", "mpt_ex", "mip",
                           "drcs", "x2829", "pagelink_any", "lop_parity")]
     # ---- caption / XDS units -------------------------------------------------------------------------------
